@@ -454,10 +454,125 @@ func (f *FuncCFG) forEachEdgeFact(fn func(e Edge, b *cfg.Block, ft fact)) {
 		}
 		for si, br := range []bool{true, false} {
 			for _, ft := range factsOn(c, br) {
-				fn(Edge{b, si}, b, ft)
+				for _, ft2 := range f.expandBoolTemp(ft, Point{b, len(b.Nodes) - 1}, 3) {
+					fn(Edge{b, si}, b, ft2)
+				}
 			}
 		}
 	}
+}
+
+// expandBoolTemp: a branch on a boolean local that has exactly one reaching definition `v := <expr>`
+// (not a call) whose operands are not assigned on any path between the definition and the branch
+// stands for that expression; the fact is decomposed through it (named guards such as
+// `tooBig := n > max; ...; if tooBig`). This is the flow-sensitive complement of canon.go's
+// lexical temporaries: it also covers tuple definitions and operands that are reassigned only
+// after the branch.
+func (f *FuncCFG) expandBoolTemp(ft fact, pt Point, depth int) []fact {
+	id, ok := ast.Unparen(ft.Atom).(*ast.Ident)
+	if !ok || depth <= 0 {
+		return []fact{ft}
+	}
+	obj, _ := f.Info.Uses[id].(*types.Var)
+	if obj == nil {
+		return []fact{ft}
+	}
+	if bt, isB := obj.Type().Underlying().(*types.Basic); !isB || bt.Info()&types.IsBoolean == 0 {
+		return []fact{ft}
+	}
+	defs, fromEntry := f.ReachingDefs(pt, obj)
+	if len(defs) != 1 || fromEntry || defs[0].Rhs == nil {
+		return []fact{ft}
+	}
+	rhs := ast.Unparen(defs[0].Rhs)
+	if as, isAs := f.nodeAt(defs[0].At).(*ast.AssignStmt); isAs && len(as.Lhs) != len(as.Rhs) {
+		return []fact{ft} // one result of a tuple (call, receive, map lookup): not an expression of its own
+	}
+	switch x := rhs.(type) {
+	case *ast.BinaryExpr, *ast.Ident:
+	case *ast.UnaryExpr:
+		if x.Op != token.NOT {
+			return []fact{ft}
+		}
+	default:
+		return []fact{ft}
+	}
+	// operands: identifiers (by object) and selector paths (by raw key) mentioned in the definition
+	objs := map[types.Object]bool{}
+	paths := map[string]bool{}
+	hasCall := false
+	ast.Inspect(rhs, func(n ast.Node) bool {
+		switch x := n.(type) {
+		case *ast.Ident:
+			if v, isVar := f.Info.Uses[x].(*types.Var); isVar {
+				objs[v] = true
+			}
+		case *ast.SelectorExpr:
+			paths[rawKey(x)] = true
+		case *ast.CallExpr:
+			if k := rawKey(x.Fun); k != "len" && k != "cap" {
+				hasCall = true
+			}
+		}
+		return true
+	})
+	if hasCall {
+		return []fact{ft}
+	}
+	assigns := func(n ast.Node) bool {
+		hit := false
+		inspectNoLit(n, func(m ast.Node) bool {
+			switch x := m.(type) {
+			case *ast.AssignStmt:
+				for _, l := range x.Lhs {
+					if o := objOfIdentRaw(f.Info, l); o != nil && objs[o] {
+						hit = true
+					}
+					if se, isSel := ast.Unparen(l).(*ast.SelectorExpr); isSel && paths[rawKey(se)] {
+						hit = true
+					}
+				}
+			case *ast.IncDecStmt:
+				if o := objOfIdentRaw(f.Info, x.X); o != nil && objs[o] {
+					hit = true
+				}
+				if se, isSel := ast.Unparen(x.X).(*ast.SelectorExpr); isSel && paths[rawKey(se)] {
+					hit = true
+				}
+			}
+			return !hit
+		})
+		return hit
+	}
+	// is there a path definition -> (node assigning an operand) -> branch ?
+	dirty := false
+	from := Point{defs[0].At.B, defs[0].At.I + 1}
+	f.reach(from, nil, func(q Point, atExit bool) bool {
+		if atExit || dirty {
+			return dirty
+		}
+		if f.At(q, pt) {
+			return false
+		}
+		if n := f.nodeAt(q); n != nil && assigns(n) {
+			if _, reaches := f.reach(Point{q.B, q.I + 1}, nil, func(q2 Point, atExit2 bool) bool { return !atExit2 && f.At(q2, pt) }); reaches {
+				dirty = true
+			}
+		}
+		return false
+	})
+	if dirty {
+		return []fact{ft}
+	}
+	var out []fact
+	for _, sub := range factsOn(rhs, ft.Pol) {
+		out = append(out, f.expandBoolTemp(sub, defs[0].At, depth-1)...)
+	}
+	if len(out) == 0 {
+		// the polarity cannot be decomposed (e.g. the false edge of a conjunction): no atom facts
+		return nil
+	}
+	return out
 }
 
 // ErrEdges finds the branch edges that test the error result of `call` (assigned to some
@@ -1119,6 +1234,7 @@ func (f *FuncCFG) expand(depth int, onStack map[*types.Func]bool) {
 			// graph would contain the infeasible path "helper failed, caller saw no error".
 			var tailOK, tailFail *cfg.Block
 			boolCorr := false // tailOK = the result is true, tailFail = the result is false
+			corrIdx := 0      // which result of the helper the correlated variable receives
 			if len(tail.Nodes) == 1 && len(tail.Succs) == 2 {
 				// boolean correlation, direct form: `if helper(...)` / `if !helper(...)`
 				if cond, isExpr := tail.Nodes[0].(ast.Expr); isExpr {
@@ -1172,8 +1288,18 @@ func (f *FuncCFG) expand(depth int, onStack map[*types.Func]bool) {
 							}
 							break
 						}
-						if as, isAs := tail.Nodes[0].(*ast.AssignStmt); isAs && len(as.Lhs) == 1 {
-							if v := objOfIdent(f.Info, as.Lhs[0]); v != nil && objOfIdentRaw(f.Info, c) == v {
+						if as, isAs := tail.Nodes[0].(*ast.AssignStmt); isAs && len(as.Rhs) == 1 {
+							// the tested variable may be one result of a tuple: `n, v, ok := helper(); if !ok`
+							li := -1
+							for k, l := range as.Lhs {
+								if v := objOfIdent(f.Info, l); v != nil && objOfIdentRaw(f.Info, c) == v {
+									li = k
+								}
+							}
+							if li >= 0 {
+								corrIdx = li
+							}
+							if v := objOfIdent(f.Info, as.Lhs[max(li, 0)]); li >= 0 && v != nil {
 								if bt, ok := v.Type().Underlying().(*types.Basic); ok && bt.Kind() == types.Bool {
 									sink := &cfg.Block{Kind: cfg.KindUnreachable, Live: false}
 									trueSucc, falseSucc := tail.Succs[0], tail.Succs[1]
@@ -1245,8 +1371,8 @@ func (f *FuncCFG) expand(depth int, onStack map[*types.Func]bool) {
 				}
 				last := rs.Results[len(rs.Results)-1]
 				if boolCorr {
-					if len(rs.Results) == 1 {
-						if id, ok := ast.Unparen(last).(*ast.Ident); ok {
+					if corrIdx < len(rs.Results) {
+						if id, ok := ast.Unparen(rs.Results[corrIdx]).(*ast.Ident); ok {
 							switch id.Name {
 							case "true":
 								return tailOK
@@ -1928,7 +2054,7 @@ func (f *FuncCFG) evalAt(e ast.Expr, pt Point, assign map[string]bool, depth int
 // matching avoid, when the branches decided by the assignment (evalAt) take only their decided
 // side? Short-circuit conditions are evaluated left to right: a decided left operand of && / ||
 // hides the right one (so `p == nil || *p` is not evaluated for *p when p is nil).
-func (f *FuncCFG) PathUnder(assign map[string]bool, avoid, target func(ast.Node) bool) ([]string, bool) {
+func (f *FuncCFG) PathUnder(assign map[string]bool, avoid, target func(ast.Node) bool, guardEdge ...func(facts []fact, pt Point) bool) ([]string, bool) {
 	type item struct {
 		b    *cfg.Block
 		path []string
@@ -1967,11 +2093,25 @@ func (f *FuncCFG) PathUnder(assign map[string]bool, avoid, target func(ast.Node)
 			if tag, ok := caseTagOf[c]; ok {
 				c = &ast.BinaryExpr{X: tag, Op: token.EQL, Y: c}
 			}
-			if v, known := f.evalAt(c, Point{b, len(b.Nodes) - 1}, assign, 3); known {
+			cpt := Point{b, len(b.Nodes) - 1}
+			if v, known := f.evalAt(c, cpt, assign, 3); known {
 				if v {
 					return walk(b.Succs[0], path)
 				}
 				return walk(b.Succs[1], path)
+			}
+			if len(guardEdge) > 0 {
+				// the facts an edge carries once the conjuncts decided by the assignment are dropped;
+				// an edge the caller recognises as a guard edge is not crossed
+				for si, br := range []bool{true, false} {
+					if guardEdge[0](f.residualFacts(c, br, cpt, assign), cpt) {
+						continue
+					}
+					if walk(b.Succs[si], path) {
+						return true
+					}
+				}
+				return false
 			}
 		}
 		for _, sc := range b.Succs {
@@ -2131,4 +2271,40 @@ func (f *FuncCFG) RawCondEdges(match func(cond ast.Expr) bool) (trueEdges, false
 		trueEdges, falseEdges = append(trueEdges, t), append(falseEdges, fl)
 	}
 	return
+}
+
+// residualFacts: the atoms known on the true/false edge of cond when the sub-conditions decided by
+// the assignment are taken as given: on the FALSE edge of `A && B` with A known true, B is false.
+func (f *FuncCFG) residualFacts(cond ast.Expr, branch bool, pt Point, assign map[string]bool) []fact {
+	e := ast.Unparen(cond)
+	if under, ok := astSubst[e]; ok {
+		return f.residualFacts(under, branch, pt, assign)
+	}
+	switch x := e.(type) {
+	case *ast.UnaryExpr:
+		if x.Op == token.NOT {
+			return f.residualFacts(x.X, !branch, pt, assign)
+		}
+	case *ast.BinaryExpr:
+		if x.Op == token.LAND || x.Op == token.LOR {
+			neutral := x.Op == token.LAND // a conjunct known true / a disjunct known false drops out
+			lv, lk := f.evalAt(x.X, pt, assign, 3)
+			rv, rk := f.evalAt(x.Y, pt, assign, 3)
+			switch {
+			case lk && lv == neutral:
+				return f.residualFacts(x.Y, branch, pt, assign)
+			case rk && rv == neutral:
+				return f.residualFacts(x.X, branch, pt, assign)
+			}
+			if (x.Op == token.LAND) == branch {
+				return append(f.residualFacts(x.X, branch, pt, assign), f.residualFacts(x.Y, branch, pt, assign)...)
+			}
+			return nil
+		}
+	}
+	var out []fact
+	for _, ft := range f.expandBoolTemp(fact{e, branch}, pt, 3) {
+		out = append(out, ft)
+	}
+	return out
 }
